@@ -555,6 +555,12 @@ func trial(c c04Case, ref *reference, unstable map[string]bool, m int, second in
 	var bad []string
 	changed := diffKeys(before, after)
 	for k := range changed {
+		if strings.HasSuffix(k, "#order") {
+			// the order of a neuronjson list answer across a restart is C03's (listed) finding, not evidence here
+			delete(changed, k)
+		}
+	}
+	for k := range changed {
 		if !touched[k] && !named(k) {
 			bad = append(bad, k)
 		}
